@@ -1,0 +1,58 @@
+//go:build verif
+
+// Contracts for package provider (HTTP ammo provider), checked by /verif/govc. Comment-only: no code.
+package provider
+
+// Streaming mode: every scanned entry whose tag is chosen is sent to the sink, in scan order; the limit/passes bound reported
+// by the decoder ends the run without error; a cancelled context is noticed in every iteration.
+//@ func (p *Provider) runFullScan
+//@ props C08 C14
+//@ requires p.Sink != nil
+//@ loop 0 invariant p.Sink == old(p.Sink) && p.Decoder == old(p.Decoder)
+//@ loop 0 step [cancellation-is-noticed-in-every-iteration] !iter(done(ctx))
+//@ loop 0 step [one-scan-per-iteration] calls(p.Decoder.Scan) - iter(calls(p.Decoder.Scan)) == 1 && result_of(p.Decoder.Scan, 1) == nil
+//@ loop 0 step [chosen-entry-is-delivered] imp(confutil.IsChosenCase(result_of(p.Decoder.Scan, 0).Tag(), p.Config.ChosenCases), sent(p.Sink) == iter(sent(p.Sink)) + 1)
+//@ loop 0 step [other-entries-are-skipped] imp(!confutil.IsChosenCase(result_of(p.Decoder.Scan, 0).Tag(), p.Config.ChosenCases), sent(p.Sink) == iter(sent(p.Sink)))
+//@ at send p.Sink assert [the-scanned-entry-itself] value == result_of(p.Decoder.Scan, 0)
+//@ ensures [bounds-reached-is-a-clean-end] imp(calls(p.Decoder.Scan) > 0 && (result_of(p.Decoder.Scan, 1) == decoders.ErrAmmoLimit || result_of(p.Decoder.Scan, 1) == decoders.ErrPassLimit) && !done(ctx), result == nil)
+//@ ensures [decoder-failure-is-reported] imp(result == nil, calls(p.Decoder.Scan) > 0 && (errors.Is(result_of(p.Decoder.Scan, 1), decoders.ErrAmmoLimit) || errors.Is(result_of(p.Decoder.Scan, 1), decoders.ErrPassLimit)))
+//@ modifies chanSent[p.Sink], ev(scan_ok)
+
+// Preload: keep exactly the chosen entries, in file order.
+//@ func (p *Provider) loadAmmo
+//@ props C08 C14
+//@ loop 0 invariant [kept-so-far-are-chosen] forall(k, 0, len(p.ammos), confutil.IsChosenCase(p.ammos[k].Tag(), p.Config.ChosenCases) && p.ammos[k] != nil)
+//@ loop 0 invariant [no-more-kept-than-visited] len(p.ammos) <= rangeidx && ammos == result_of(p.Decoder.LoadAmmo, 0) && forall(k, 0, len(ammos), ammos[k] != nil)
+//@ loop 0 step [chosen-entry-is-kept-in-order] imp(confutil.IsChosenCase(ammos[rangeidx-1].Tag(), p.Config.ChosenCases), len(p.ammos) == iter(len(p.ammos)) + 1 && p.ammos[len(p.ammos)-1] == ammos[rangeidx-1])
+//@ loop 0 step [other-entries-are-dropped] imp(!confutil.IsChosenCase(ammos[rangeidx-1].Tag(), p.Config.ChosenCases), len(p.ammos) == iter(len(p.ammos)))
+//@ loop 0 step [kept-entries-stay] forall(k, 0, iter(len(p.ammos)), p.ammos[k] == iter(p.ammos)[k])
+//@ ensures [only-chosen-entries] imp(result == nil, forall(k, 0, len(p.ammos), confutil.IsChosenCase(p.ammos[k].Tag(), p.Config.ChosenCases)))
+//@ ensures [load-failure-is-reported] imp(result_of(p.Decoder.LoadAmmo, 1) != nil, result != nil && cause(result) == cause(result_of(p.Decoder.LoadAmmo, 1)))
+//@ modifies p.ammos
+
+// Preloaded mode: entry number j (from 0) sent is ammos[j mod n]; sending stops exactly at the first bound reached.
+//@ func (p *Provider) runPreloaded
+//@ props C08 C14
+//@ requires p.Sink != nil
+//@ ghost n = len(p.ammos)
+//@ ghost sent0 = sent(p.Sink)
+//@ loop 0 invariant p.Sink == old(p.Sink) && length == n && n > 0 && p.ammos == old(p.ammos)
+//@ loop 0 invariant [delivered-count] ammoNum == sent(p.Sink) - sent0 && ammoNum >= 0
+//@ loop 0 invariant [never-beyond-the-bounds] imp(p.Passes != 0, ammoNum / n < p.Passes || (ammoNum / n == p.Passes && ammoNum % n == 0)) && imp(p.Limit != 0, ammoNum <= p.Limit)
+//@ loop 0 step [cancellation-is-noticed-in-every-iteration] !iter(done(ctx))
+//@ at send p.Sink assert [file-order-wrapping-around] value == p.ammos[(sent(p.Sink) - sent0) % n]
+//@ ensures [no-ammo] imp(n == 0, result == decoders.ErrNoAmmo && sent(p.Sink) == sent0)
+//@ ensures [pass-bound-means-exactly-passes-complete-passes] imp(result == decoders.ErrPassLimit, p.Passes != 0 && (sent(p.Sink) - sent0) / n == p.Passes && (sent(p.Sink) - sent0) % n == 0)
+//@ ensures [limit-bound-means-exactly-limit-entries] imp(result == decoders.ErrAmmoLimit, p.Limit != 0 && sent(p.Sink) - sent0 == p.Limit && imp(p.Passes != 0, p.Limit / n < p.Passes))
+//@ ensures [stops-only-at-a-bound-or-on-cancel] result == decoders.ErrPassLimit || result == decoders.ErrAmmoLimit || result == decoders.ErrNoAmmo || done(ctx)
+//@ modifies chanSent[p.Sink]
+
+// A run ends with the sink closed on every path, and reaching the bounds is success in both modes.
+//@ func (p *Provider) Run
+//@ props C08 C14
+//@ requires p.Sink != nil && !closed(p.Sink)
+//@ ensures [sink-closed-on-every-exit] closed(old(p.Sink))
+//@ ensures [preload-bounds-reached-is-a-clean-end] imp(p.Config.Preload && calls(p.runPreloaded) == 1 && (result_of(p.runPreloaded, 0) == decoders.ErrPassLimit || result_of(p.runPreloaded, 0) == decoders.ErrAmmoLimit) && (p.Close == nil || result_of(p.Close, 0) == nil), err == nil)
+//@ ensures [streaming-outcome-is-returned] imp(!p.Config.Preload && calls(p.runFullScan) == 1 && (p.Close == nil || result_of(p.Close, 0) == nil), err == result_of(p.runFullScan, 0))
+//@ ensures [preload-failure-is-reported] imp(calls(p.loadAmmo) == 1 && result_of(p.loadAmmo, 0) != nil, err != nil)
+//@ panics ensures [sink-closed-on-every-exit] closed(old(p.Sink))
